@@ -61,6 +61,7 @@ type bedrockEnv struct {
 	fg     *floodgate.Floodgate
 	integ  *geyser.Integration
 	proxy  *proxy.Proxy
+	cfg    *bconfig.Config // the very Config the integration reads UsernameFormat from on every login
 }
 
 func freeAddr() string {
@@ -106,7 +107,7 @@ func newEnv(dir string, key []byte, format string, a auth.Authenticator) (*bedro
 	if err != nil {
 		return nil, err
 	}
-	return &bedrockEnv{format: format, addr: bc.GeyserListenAddr, fg: fg, integ: integ, proxy: p}, nil
+	return &bedrockEnv{format: format, addr: bc.GeyserListenAddr, fg: fg, integ: integ, proxy: p, cfg: &bc}, nil
 }
 
 // login performs one Bedrock login (as Geyser would) and returns what LoginSuccess carries.
@@ -314,6 +315,104 @@ func main() {
 			run.Case("bedrock/"+cl, fmt.Sprintf("bedrock %s %s %s %d", hx.HexS(f), hx.HexS(tag), hx.HexS(apply(f, tag)), xuid), out)
 		}
 		env.integ.Stop()
+	}
+
+	// ---- format sweep through the real onGameProfile path ----
+	// Username formats whose literal prefix / suffix lengths sweep 0..24 around the 16-character limit
+	// (prefix only, suffix only, both), built from plain ASCII, from characters the normaliser replaces and from
+	// multi-byte characters, crossed with gamertags of 1..20 characters.  One environment is reused: the
+	// integration reads cfg.UsernameFormat on every login, logins are strictly sequential.
+	{
+		lit := func(kind, n int) string {
+			var sb strings.Builder
+			for i := 0; i < n; i++ {
+				switch kind % 3 {
+				case 0:
+					sb.WriteByte("BedrockPlayerXbox0123456789_"[i%28])
+				case 1:
+					sb.WriteString([]string{"[", "-", ".", " ", "*", "]", "#", "!"}[i%8])
+				default:
+					sb.WriteString([]string{"玩", "é", "😀", "家", "ß"}[i%5])
+				}
+			}
+			return sb.String()
+		}
+		tagOf := func(kind, n int) string {
+			var sb strings.Builder
+			for i := 0; i < n; i++ {
+				switch kind % 3 {
+				case 0:
+					sb.WriteByte("SteveAlexHerobrine42"[i%20])
+				case 1:
+					sb.WriteString([]string{"x", " ", "X", ".", "9"}[i%5])
+				default:
+					sb.WriteString([]string{"玩", "a", "😀", "é"}[i%4])
+				}
+			}
+			return sb.String()
+		}
+		type ps struct{ p, s int }
+		var shapes []ps
+		for n := 0; n <= 24; n++ {
+			shapes = append(shapes, ps{n, 0}) // prefix only
+		}
+		for n := 1; n <= 24; n++ {
+			shapes = append(shapes, ps{0, n}) // suffix only
+		}
+		seenShape := map[ps]bool{}
+		for p := 1; p <= 24; p++ { // both
+			for _, sfx := range []int{1, 3, 13 - p, 16 - p, 17 - p, 24 - p} {
+				if sfx >= 1 && sfx <= 24 && !seenShape[ps{p, sfx}] {
+					seenShape[ps{p, sfx}] = true
+					shapes = append(shapes, ps{p, sfx})
+				}
+			}
+		}
+		tagLens := []int{1, 2, 3, 4, 8, 15, 16, 20}
+		kinds := []int{0}
+		if run.Thorough() {
+			tagLens = nil
+			for n := 1; n <= 20; n++ {
+				tagLens = append(tagLens, n)
+			}
+			kinds = []int{0, 1, 2}
+		}
+		env, err := newEnv(run.OutDir, key, "%s", sharedAuth)
+		if err != nil {
+			run.Case("sweep/env-error", "bedrock - - - 1", "env-error")
+		} else {
+			idx := 0
+			for si, sh := range shapes {
+				for _, k0 := range kinds {
+					k := k0
+					if !run.Thorough() {
+						k = si // quick tier: the literal kind rotates with the shape
+					}
+					f := lit(k, sh.p) + "%s" + lit(k+1, sh.s)
+					if sh.s > 0 && k%3 == 0 {
+						f = lit(k, sh.p) + "%s" + lit(k, sh.s)
+					}
+					env.cfg.UsernameFormat = f
+					for _, tl := range tagLens {
+						idx++
+						tag := tagOf(idx, tl)
+						xuid, _ := genXuid(r)
+						if xuid == 0 {
+							xuid = 1
+						}
+						out := hx.Guard(30*time.Second, func() string { return env.login(tag, xuid) })
+						cl := "sweep/prefix+suffix"
+						if sh.s == 0 {
+							cl = "sweep/prefix-only"
+						} else if sh.p == 0 {
+							cl = "sweep/suffix-only"
+						}
+						run.Case(cl, fmt.Sprintf("bedrock %s %s %s %d", hx.HexS(f), hx.HexS(tag), hx.HexS(apply(f, tag)), xuid), out)
+					}
+				}
+			}
+			env.integ.Stop()
+		}
 	}
 
 	// ---- generated: normaliser on gamertags and on formatted names ----
